@@ -1,0 +1,103 @@
+//! Verification hook (only compiled with `--cfg rarena_verif`): atomics that announce every
+//! access to a registered callback *before* performing it, so that an external scheduler can
+//! force a particular interleaving of real threads. With the cfg off this file is not part of
+//! the crate.
+use core::sync::atomic::{self as a, Ordering};
+
+/// Kind of access reported to the callback.
+#[derive(Clone, Copy, Debug, PartialEq, Eq)]
+#[repr(u8)]
+pub enum Access {
+  /// atomic load
+  Load = 0,
+  /// atomic store
+  Store = 1,
+  /// compare_exchange / compare_exchange_weak
+  Cas = 2,
+  /// fetch_add / fetch_sub
+  Rmw = 3,
+  /// the non-atomic zeroing of a buffer that is about to be handed out
+  Clear = 4,
+}
+
+/// Callback type: address of the accessed location and the kind of access.
+pub type Callback = fn(usize, Access);
+
+static CALLBACK: a::AtomicUsize = a::AtomicUsize::new(0);
+
+/// Installs (or, with `None`, removes) the callback invoked before every access.
+pub fn set_callback(cb: Option<Callback>) {
+  CALLBACK.store(cb.map(|f| f as usize).unwrap_or(0), Ordering::SeqCst);
+}
+
+/// Reports an access to the callback, if one is installed.
+#[inline]
+pub fn announce(addr: usize, kind: Access) {
+  let f = CALLBACK.load(Ordering::SeqCst);
+  if f != 0 {
+    // SAFETY: only values produced from a `Callback` are ever stored.
+    let f: Callback = unsafe { core::mem::transmute::<usize, Callback>(f) };
+    f(addr, kind);
+  }
+}
+
+macro_rules! hooked {
+  ($name:ident, $inner:ty, $prim:ty) => {
+    /// Hooked counterpart of the atomic type of the same name.
+    #[repr(transparent)]
+    pub struct $name($inner);
+
+    impl core::fmt::Debug for $name {
+      fn fmt(&self, f: &mut core::fmt::Formatter<'_>) -> core::fmt::Result {
+        self.0.fmt(f)
+      }
+    }
+
+    #[allow(missing_docs)]
+    impl $name {
+      #[inline]
+      pub const fn new(v: $prim) -> Self {
+        Self(<$inner>::new(v))
+      }
+      #[inline]
+      fn addr(&self) -> usize {
+        self as *const Self as usize
+      }
+      #[inline]
+      pub fn load(&self, o: Ordering) -> $prim {
+        announce(self.addr(), Access::Load);
+        self.0.load(o)
+      }
+      #[inline]
+      pub fn store(&self, v: $prim, o: Ordering) {
+        announce(self.addr(), Access::Store);
+        self.0.store(v, o)
+      }
+      #[inline]
+      pub fn compare_exchange(&self, c: $prim, n: $prim, s: Ordering, f: Ordering) -> Result<$prim, $prim> {
+        announce(self.addr(), Access::Cas);
+        self.0.compare_exchange(c, n, s, f)
+      }
+      #[inline]
+      pub fn compare_exchange_weak(&self, c: $prim, n: $prim, s: Ordering, f: Ordering) -> Result<$prim, $prim> {
+        announce(self.addr(), Access::Cas);
+        // under a forced schedule spurious failures would make replays diverge: use the strong form
+        self.0.compare_exchange(c, n, s, f)
+      }
+      #[inline]
+      pub fn fetch_add(&self, v: $prim, o: Ordering) -> $prim {
+        announce(self.addr(), Access::Rmw);
+        self.0.fetch_add(v, o)
+      }
+      #[inline]
+      pub fn fetch_sub(&self, v: $prim, o: Ordering) -> $prim {
+        announce(self.addr(), Access::Rmw);
+        self.0.fetch_sub(v, o)
+      }
+    }
+  };
+}
+
+hooked!(AtomicU32, a::AtomicU32, u32);
+hooked!(AtomicU64, a::AtomicU64, u64);
+hooked!(AtomicUsize, a::AtomicUsize, usize);
